@@ -112,6 +112,8 @@ theorem step_sync {W : Nat} (hW : 1 ≤ W) {sh : Sh} {t : Tid} {pc : Pc} {op : O
     exact frame_step g0 rfl (L_same l0 rfl rfl rfl (by simp))
   · -- running
     simp only [step] at h
+    rcases List.mem_append.mp h with h | h
+    · exact step_apply_reserve g0 l0 h
     cases a <;> simp at h
     · split at h <;> (simp at h; obtain ⟨rfl, rfl⟩ := h; exact frame_step g0 rfl (L_same l0 rfl rfl rfl (by simp)))
     · obtain ⟨rfl, rfl⟩ := h; exact frame_step g0 rfl (L_same l0 rfl rfl rfl (by simp))
